@@ -9,7 +9,7 @@ open Diskfs.Parsers
 theorem checkGeometry_spec (p : Bpb) (size : Int) (h : checkGeometry p size = true) :
     (p.bps = 512 ∨ p.bps = 1024 ∨ p.bps = 2048 ∨ p.bps = 4096) ∧ 0 < p.spc ∧ p.spc ≤ 128 ∧
     p.reserved ≠ 0 ∧ p.fatCount ≠ 0 ∧ p.spf ≠ 0 ∧ (p.total ≠ 0 → metaSectors p < p.total) ∧
-    (size > 0 → (metaSectors p * p.bps : Int) ≤ size) := by
+    (size > 0 → ((metaSectors p * p.bps % two64 : Nat) : Int) ≤ size) := by
   unfold checkGeometry at h
   simp only [Bool.and_eq_true, Bool.or_eq_true, beq_iff_eq, Bool.not_eq_true', bne_iff_ne, ne_eq,
     Bool.or_eq_false_iff, Bool.and_eq_false_iff, decide_eq_false_iff_not, beq_eq_false_iff_ne,
@@ -74,7 +74,7 @@ theorem read1216_ok_inv (k : Kind) (p : Bpb) (size : Int) (g : Geom) (h : read12
   rw [read1216_checked_eq k p size h0 hc] at h
   by_cases hbad : badCount k (geomOf p).numClusters = true
   · simp [hbad] at h
-  · simp only [hbad, if_false] at h
+  · simp only [hbad] at h
     injection h with h
     exact ⟨h0, hc, h.symm⟩
 
@@ -87,10 +87,22 @@ theorem read1216_no_panic (k : Kind) (p : Bpb) (size : Int) : read1216 true k p 
     · rw [read1216_checked_eq k p size h0 hc]
       split <;> simp
 
-theorem read32_no_panic (p : Bpb) (size : Int) : read32 true p size ≠ .panic := by
+theorem read32_no_panic (p : Bpb) (size : Int) : read32 true true p size ≠ .panic := by
   unfold read32
-  simp only
-  split <;> simp
+  simp only [Bool.true_and]
+  cases hc : checkGeometry { p with rootEntries := 0 } size
+  · simp
+  · simp only [Bool.not_true, Bool.false_eq_true, if_false]
+    obtain ⟨hb, _, _, _, _, hspf, _, _⟩ := checkGeometry_spec _ size hc
+    simp only at hb hspf
+    by_cases hw : p.spf * p.bps > 1073741824
+    · simp [hw]
+    · simp only [hw, decide_false, Bool.false_eq_true, if_false]
+      have h1 : 512 ≤ p.spf * p.bps := by
+        have : 1 * 512 ≤ p.spf * p.bps := Nat.mul_le_mul (by omega) (by omega)
+        omega
+      have h2 : ¬ (u32 (p.spf * p.bps) < 8) := by unfold u32 two32; omega
+      simp [h2]
 
 /-- no wrapped subtraction, no wrapped product: behind CheckGeometry, for 16-bit FAT12/16 fields and a
     non-zero total sector count, every uint32 intermediate of Read equals the exact natural number -/
@@ -123,11 +135,12 @@ theorem read1216_exact (k : Kind) (p : Bpb) (size : Int) (g : Geom) (hr : p.inRa
     rcases hb with hb | hb | hb | hb <;> rw [hb] <;> omega
 
 /-- FAT allocation ≤ volume size: the `make([]byte, fatSize)` of fat12/fat16 Read -/
-theorem read1216_alloc_le_size (k : Kind) (p : Bpb) (size : Int) (g : Geom) (hsz : size > 0)
+theorem read1216_alloc_le_size (k : Kind) (p : Bpb) (size : Int) (g : Geom) (hr : p.inRange) (hsz : size > 0)
     (h : read1216 true k p size = .ok g) : (g.fatSize : Int) ≤ size := by
   obtain ⟨h0, hc, hg⟩ := read1216_ok_inv k p size g h
   obtain ⟨hb, _, _, _, hfc, _, _, hsize⟩ := checkGeometry_spec p size hc
   have hS := hsize hsz
+  rw [Nat.mod_eq_of_lt (checkGeometry_u64 p hr (by omega) (by omega))] at hS
   subst hg
   unfold geomOf
   simp only
@@ -136,29 +149,38 @@ theorem read1216_alloc_le_size (k : Kind) (p : Bpb) (size : Int) (g : Geom) (hsz
   have h3 : p.spf * p.bps ≤ metaSectors p * p.bps := Nat.mul_le_mul_right _ h2
   have h4 : u32 (p.spf * p.bps) ≤ p.spf * p.bps := Nat.mod_le _ _
   have h5 : ((metaSectors p * p.bps : Nat) : Int) ≤ size := by
-    simpa [Int.natCast_mul] using hS
+    exact hS
   omega
 
 /-- FAT allocation ≤ volume size: the `make([]byte, fatSize)` of fat32.Read -/
-theorem read32_alloc_le_size (p : Bpb) (size : Int) (g : Geom32) (hsz : size > 0)
-    (h : read32 true p size = .ok g) : (g.fatSize : Int) ≤ size := by
+theorem read32_alloc_le_size (p : Bpb) (size : Int) (g : Geom32) (w : Bool) (hr : p.inRange) (hsz : size > 0)
+    (h : read32 true w p size = .ok g) : (g.fatSize : Int) ≤ size := by
   unfold read32 at h
   simp only [Bool.true_and] at h
   cases hc : checkGeometry { p with rootEntries := 0 } size
   · simp [hc] at h
   · simp only [hc, Bool.not_true, Bool.false_eq_true, if_false, pure_eq] at h
-    injection h with h
-    subst h
-    simp only
-    obtain ⟨_, _, _, _, hfc, _, _, hsize⟩ := checkGeometry_spec _ size hc
-    have hS := hsize hsz
-    simp only at hS hfc
-    have h1 : p.spf ≤ p.fatCount * p.spf := Nat.le_mul_of_pos_left _ (by omega)
-    have h2 : p.spf ≤ metaSectors { p with rootEntries := 0 } := by unfold metaSectors; simp only; omega
-    have h3 : p.spf * p.bps ≤ metaSectors { p with rootEntries := 0 } * p.bps := Nat.mul_le_mul_right _ h2
-    have h4 : u32 (p.spf * p.bps) ≤ p.spf * p.bps := Nat.mod_le _ _
-    have h5 : ((metaSectors { p with rootEntries := 0 } * p.bps : Nat) : Int) ≤ size := by
-      simpa [Int.natCast_mul] using hS
-    omega
+    split at h
+    · simp at h
+    · split at h
+      · simp at h
+      · injection h with h
+        subst h
+        simp only
+        obtain ⟨hb, _, _, _, hfc, _, _, hsize⟩ := checkGeometry_spec _ size hc
+        have hS := hsize hsz
+        have hr' : Bpb.inRange { p with rootEntries := 0 } := by
+          obtain ⟨r1, r2, r3, r4, r5, _, r7⟩ := hr
+          exact ⟨r1, r2, r3, r4, r5, by simp only; omega, r7⟩
+        simp only at hb
+        rw [Nat.mod_eq_of_lt (checkGeometry_u64 _ hr' (by simp only; omega) (by simp only; omega))] at hS
+        simp only at hS hfc
+        have h1 : p.spf ≤ p.fatCount * p.spf := Nat.le_mul_of_pos_left _ (by omega)
+        have h2 : p.spf ≤ metaSectors { p with rootEntries := 0 } := by unfold metaSectors; simp only; omega
+        have h3 : p.spf * p.bps ≤ metaSectors { p with rootEntries := 0 } * p.bps := Nat.mul_le_mul_right _ h2
+        have h4 : u32 (p.spf * p.bps) ≤ p.spf * p.bps := Nat.mod_le _ _
+        have h5 : ((metaSectors { p with rootEntries := 0 } * p.bps : Nat) : Int) ≤ size := by
+          exact hS
+        omega
 
 end Diskfs.Parsers.Fat
